@@ -74,6 +74,16 @@ func streamNonce(c *ctx) {
 		case 0:
 		case 1:
 			un[iana.HeaderParameterPartialIV] = "x"
+		case 2:
+			// sequence numbers with leading zero octets, and zero itself: the header value is used (and published) as given
+			pv := c.r.bytes(pick(c.r, []int{1, 2, 3, 6}))
+			pv[0] = 0
+			if c.r.bool() {
+				for j := range pv {
+					pv[j] = 0
+				}
+			}
+			un[iana.HeaderParameterPartialIV] = pv
 		default:
 			un[iana.HeaderParameterPartialIV] = c.r.bytes(pick(c.r, lens))
 		}
